@@ -14,7 +14,7 @@ import (
 var UStr = []string{"", "a", "A", "ab", "aB", "b", "Bob", "bob", "10", "9", "3", "3.5", "x y", "-1", "2500000.5", "0.00005"}
 var UInt = []int64{0, 1, 2, 3, 9, 10, -1, -7, 1 << 40, math.MaxInt32 + 1, 1<<53 + 1, math.MaxInt64, math.MinInt64 + 1}
 var UInt32 = []int64{0, 1, 2, 3, 9, 10, -1, math.MaxInt32, math.MinInt32}
-var UFloat = []float64{0, 0.5, 1, 2.5, 3, 3.5, 10, -1.5, 1e3, 1e-3, 9007199254740992, 2500000.5, 0.00005}
+var UFloat = []float64{0, math.Copysign(0, -1), 0.5, 1, 2.5, 3, 3.5, 10, -1.5, 1e3, 1e-3, 9007199254740992, 2500000.5, 0.00005}
 var UTime = []string{"0001-01-01T00:00:00Z", "2020-01-01T00:00:00Z", "2020-01-01T01:00:00+01:00", "2020-01-01T00:00:00.000000001Z", "2021-06-15T12:30:00.5Z", "1999-12-31T23:59:59-05:00", "1960-02-29T10:00:00Z"}
 var URole = []string{"", "a", "b", "Bob", "r", "R", "10", "3"}
 var UNum = []string{"1", "3", "10", "9", "3.5", "-1", "007"}
